@@ -4,11 +4,12 @@ import gen
 import pgsite
 import trees
 import validators as V
+from k05 import run_k05   # [agentH] K05: Model/Request.v against the real protocol classes
 
 
 def run(tier):
     chk = Check("C05", tier)
-    chk.proofs()
+    chk.proofs(extra_files=["Corr/K05.v"])   # [agentH]
     found = False
     rng = chk.rng
     ntrees = 10 if tier == "thorough" else 3
@@ -55,5 +56,12 @@ def run(tier):
     chk.coverage["rule"] = ("generated trees with hostile names (spaces, reserved URL characters, non-UTF-8 bytes, HTML metacharacters), "
                             "mailboxes, Maildirs, gophermaps, UMN link files; every local link reachable from / is followed in the same "
                             "protocol's request syntax, for all 9 protocol variants; each followed link is a non-trivial case")
+    # ---- [agentH] correspondence K05 (request side of every protocol, urlparse, parse_qs) ----
+    k_mism, k_err, k_det = run_k05(chk, tier)
+    chk.coverage["k05"] = k_det
+    if k_mism or k_err:
+        chk.correspondence_broken("K05 (Model/Request.v vs protocols/*.py handle())",
+                                  {"mismatches": k_mism, "error": k_err, "details": k_det}, found)
+    # ---- [agentH] end ----
     chk.finish_proofs(found)
     return chk.finish("proof")
